@@ -348,9 +348,20 @@ class SymStr:
     def count(self, w):
         w = SymStr.of(w)
         wc = w.const()
-        if wc is None or len(wc) != 1:
-            raise Unsupported('count of a non single-character needle')
+        if wc is None or len(wc) == 0:
+            raise Unsupported('count of a symbolic or empty needle')
         n = self.nz()
+        if len(wc) > 1:
+            # non-overlapping occurrences, scanning left to right (str.count)
+            L = len(wc)
+            free = z3.IntVal(0)
+            takes = []
+            for i in range(self.cap - L + 1):
+                m = z3.And([i + L <= n] + [self.cs[i + k] == C(wc[k]) for k in range(L)])
+                t = z3.And(m, free <= i)
+                takes.append(z3.If(t, 1, 0))
+                free = z3.If(t, z3.IntVal(i + L), free)
+            return mk(z3.Sum(takes + [z3.IntVal(0)]))
         return mk(z3.Sum([z3.If(z3.And(i < n, self.cs[i] == C(wc)), 1, 0) for i in range(self.cap)]
                          + [z3.IntVal(0)]))
 
